@@ -1243,6 +1243,15 @@ func families() []family {
 		add("append:wrapper", c, ListOf(NN(Ref(a))))
 		add("append:bad-wrapper", c, NN(NN(Ref(a))))
 		add("append:builtin", c, Ref(1))
+		// the appended implementer narrows a field to a possible type that is itself new
+		c = qOnly()
+		j := c.add(ifaceT("J", fieldOf("x", S)))
+		i = c.add(ifaceT("I", fieldOf("f", Ref(j)), fieldOf("l", ListOf(NN(Ref(j))))))
+		c.typ(*c.Query).Fields = []FieldC{fieldOf("i", Ref(i)), fieldOf("j", Ref(j))}
+		y := c.add(TypeC{Kind: "OBJECT", Name: "Y", Fields: []FieldC{fieldOf("x", S)}, Refs: []*int{ip(j)}, Resolver: true})
+		x := c.add(TypeC{Kind: "OBJECT", Name: "X", Fields: []FieldC{fieldOf("f", Ref(y)), fieldOf("l", ListOf(NN(Ref(y))))}, Refs: []*int{ip(i)}, Resolver: true, Form: "thunk"})
+		add("append:covariant-new-possible-type", c, Ref(x))
+		add("append:covariant-new-possible-type-both", c, Ref(y), Ref(x))
 	}
 	return out
 }
